@@ -27,8 +27,49 @@ var solvers = []solverSpec{
 	}},
 }
 
+// solverSlots bounds the number of solver processes running at once (parts of split obligations run in parallel too).
+var solverSlots = make(chan struct{}, 16)
+
 func runSolver(sp solverSpec, file string, timeoutS int) (res string, out string, secs float64) {
-	ctx, cancel := context.WithTimeout(context.Background(), time.Duration(timeoutS+2)*time.Second)
+	return runSolverCtx(context.Background(), sp, file, timeoutS)
+}
+
+// raceSolvers runs all solvers on file at once and returns the first definite answer (unsat/sat), cancelling the rest;
+// without a definite answer it returns the last indefinite one.
+func raceSolvers(file string, timeoutS int) (res, out, name string, secs float64) {
+	ctx, cancel := context.WithCancel(context.Background())
+	defer cancel()
+	type r struct {
+		res, out, name string
+		secs           float64
+	}
+	ch := make(chan r, len(solvers))
+	for _, sp := range solvers {
+		sp := sp
+		go func() {
+			rs, ou, se := runSolverCtx(ctx, sp, file, timeoutS)
+			ch <- r{rs, ou, sp.name, se}
+		}()
+	}
+	for range solvers {
+		x := <-ch
+		secs += x.secs
+		if x.res == "unsat" || x.res == "sat" {
+			return x.res, x.out, x.name, secs
+		}
+		res, out, name = x.res, x.out, x.name
+	}
+	return
+}
+
+func runSolverCtx(parent context.Context, sp solverSpec, file string, timeoutS int) (res string, out string, secs float64) {
+	select {
+	case solverSlots <- struct{}{}:
+	case <-parent.Done():
+		return "cancelled", "", 0
+	}
+	defer func() { <-solverSlots }()
+	ctx, cancel := context.WithTimeout(parent, time.Duration(timeoutS+2)*time.Second)
 	defer cancel()
 	args := sp.args(file, timeoutS)
 	cmd := exec.CommandContext(ctx, args[0], args[1:]...)
@@ -46,7 +87,9 @@ func runSolver(sp solverSpec, file string, timeoutS int) (res string, out string
 	case "timeout":
 		res = "timeout"
 	default:
-		if ctx.Err() != nil {
+		if parent.Err() != nil {
+			res = "cancelled"
+		} else if ctx.Err() != nil {
 			res = "timeout"
 		} else if strings.Contains(first, "timeout") {
 			res = "timeout"
@@ -103,6 +146,14 @@ func solveOne(o *Obl, file string, timeout int, tier string) {
 		res, out, secs := runSolver(solvers[0], file, 3)
 		o.Result, o.Solver, o.Secs, o.Out = res, solvers[0].name, secs, out
 		return
+	}
+	// goals with many conjuncts are decided conjunct-wise from the start (the whole formula mostly times out first)
+	if _, sk := skolemizeGoal(o.Goal); len(splitGoal(sk)) >= 8 {
+		trySplit(o, file, timeout)
+		if o.Result == want || o.Result == "sat" {
+			return
+		}
+		o.Result = ""
 	}
 	// first solver
 	res, out, secs := runSolver(solvers[0], file, timeout)
@@ -192,36 +243,63 @@ func trySplit(o *Obl, file string, timeout int) {
 		return
 	}
 	used := map[string]bool{}
+	type partRes struct {
+		ok      bool
+		sat     bool
+		solver  string
+		out, pf string
+		secs    float64
+	}
+	results := make([]partRes, len(parts))
+	var wg sync.WaitGroup
 	for i, g := range parts {
-		po := *o
-		po.Goal = g
-		po.SkDecls = decls
-		pf := fmt.Sprintf("%s.part%d.smt2", strings.TrimSuffix(file, ".smt2"), i+1)
-		renderMu.Lock()
-		txt := po.script(true)
-		renderMu.Unlock()
-		os.WriteFile(pf, []byte(txt), 0o644)
-		done := false
-		for _, sp := range solvers {
-			rs, ou, se := runSolver(sp, pf, timeout)
-			o.Secs += se
+		i, g := i, g
+		wg.Add(1)
+		go func() {
+			defer wg.Done()
+			po := *o
+			po.Goal = g
+			po.SkDecls = decls
+			po.Secs = 0
+			pf := fmt.Sprintf("%s.part%d.smt2", strings.TrimSuffix(file, ".smt2"), i+1)
+			renderMu.Lock()
+			txt := po.script(true)
+			renderMu.Unlock()
+			os.WriteFile(pf, []byte(txt), 0o644)
+			r := &results[i]
+			r.pf = pf
+			rs, ou, nm, se := raceSolvers(pf, timeout)
+			r.secs += se
 			if rs == "unsat" {
-				used[sp.name] = true
-				done = true
-				break
-			}
-			if rs == "sat" {
-				o.Result, o.Solver, o.Out, o.Script = "sat", sp.name, ou, pf
+				r.ok, r.solver = true, nm
 				return
 			}
-		}
-		if !done && tryCases(&po, pf, timeout, o) {
-			used["cases"] = true
-			done = true
-		}
-		if !done {
+			if rs == "sat" {
+				r.sat, r.solver, r.out = true, nm, ou
+				return
+			}
+			acct := &Obl{}
+			if tryCases(&po, pf, timeout, acct) {
+				r.ok, r.solver = true, "cases"
+			}
+			r.secs += acct.Secs
+		}()
+	}
+	wg.Wait()
+	for _, r := range results {
+		o.Secs += r.secs
+	}
+	for _, r := range results {
+		if r.sat {
+			o.Result, o.Solver, o.Out, o.Script = "sat", r.solver, r.out, r.pf
 			return
 		}
+	}
+	for _, r := range results {
+		if !r.ok {
+			return
+		}
+		used[r.solver] = true
 	}
 	var names []string
 	for n := range used {
@@ -269,17 +347,9 @@ func tryCases(po *Obl, file string, timeout int, acct *Obl) bool {
 		txt := q.script(false)
 		renderMu.Unlock()
 		os.WriteFile(pf, []byte(txt), 0o644)
-		for _, sp := range solvers {
-			rs, _, se := runSolver(sp, pf, timeout)
-			acct.Secs += se
-			if rs == "unsat" {
-				return true
-			}
-			if rs == "sat" {
-				return false
-			}
-		}
-		return false
+		rs, _, _, se := raceSolvers(pf, timeout)
+		acct.Secs += se
+		return rs == "unsat"
 	}
 	// the part has the shape (=> ANTS G) or G
 	ants, g := "true", po.Goal
